@@ -175,7 +175,6 @@ impl FileSystem for MemoryFS {
     fn create_dir(&self, path: &str) -> VfsResult<()> {
         // the parent check and the insertion happen under one write lock
         let map = &mut self.handle.write().unwrap().files;
-        ensure_has_parent(map, path)?;
         let entry = map.entry(path.to_string());
         match entry {
             Entry::Occupied(file) => {
@@ -185,6 +184,7 @@ impl FileSystem for MemoryFS {
                 }
             }
             Entry::Vacant(_) => {
+                ensure_has_parent(map, path)?;
                 map.insert(
                     path.to_string(),
                     MemoryFile {
